@@ -100,6 +100,8 @@ def chosenKey (sc : UInt64 → UInt32 → UInt64) (ss : List (Entry α)) : Optio
 
 structure Digest where
   instanceName : String
+  /-- REv2 digest function enum value (SHA256 = 1, ..., GITSHA1 = 10); never looked at by the routing. -/
+  function : Nat
   hashBytes : List UInt8
   sizeBytes : Nat
 deriving Repr, DecidableEq
